@@ -42,6 +42,29 @@ operations through the SAME class / field object are executed step by step (see 
     stale     a non-integer equal to a boundary value the main part packed long before on that class -> PacketError
 For the sequence layouts the value is an element of the list (either position).  A fresh class (nothing packed yet)
 is used for the first five, so a recorded sequence replays exactly.
+
+DYN part (run first).  The integer field under test does not exist in the class body: it is produced at RUN TIME, per
+packet, by the callable of a Ref, and its width, signedness and byte order are selected by earlier fields of the same
+packet.  The check decodes the selector bytes itself and judges every operation by the configuration selected for
+THAT packet (same oracle: exact two's-complement arithmetic, exact bytes, PacketError).  Variants (dyn_make_spec):
+    sel      s = Int(1); x = Ref(lambda pkt, **k: Int(W[pkt.s & 7], signed=bool(pkt.s & 8), endianness=O[(pkt.s >> 4) & 7]), default=0)
+    flds     w, g, e = Int(1) each; x = Ref(lambda pkt, **k: Int(pkt.w, signed=bool(pkt.g), endianness='little' if pkt.e else 'big'), default=0)
+    keep     like sel through a named function that records id() of every Int it builds and keeps some of them alive
+    chooses  key = Int(1); x = Ref(key.chooses({k: Int(<literal configuration>), ...}), default=0)
+    table    T = {k: Int(...), ...};  x = Ref(lambda pkt, **k: T[pkt.key], default=0)
+    mixed    x = Ref(lambda pkt, **k: T[pkt.key] if pkt.key in T else Int(<from the bits of key>), default=0)
+    table2   two Ref fields x, y sharing the literals of one table (one through a lambda, one through chooses)
+each under the code-generation option sets and class defaults of dyn_plan, with and without a fixed field behind x
+(a wrong width shifts it).  Through the ONE class of a variant a HISTORY of 2000 (thorough 3000) operations runs:
+unpack / pack (constructor, attributes, one re-used packet object) / re-pack of parsed packets that were kept alive /
+out-of-range and non-integer rejections / truncations, the selector changing from operation to operation (random, a
+neighbour in exactly one of width / sign / byte order, back to the previous one, the same again), interleaved with
+gc.collect() and with dropping the kept packets, so that field objects die, their ids are recycled, and others stay
+alive.  A run-time selected Int WITHOUT its own byte order: bisturi compiles it with an empty configuration, i.e. big;
+where the class has no (or a big-endian) default every reading gives big and it is judged; under a little-endian class
+default the statement does not say whether the default reaches such a field: both byte orders are accepted and counted
+(dyn_unfixed_order_*), width, sign, rejection and "re-pack gives the parsed bytes back" are judged all the same.
+A failing history is cut down to its shortest tail that fails on a freshly defined class (the witness replays).
 """
 import ast
 import os
@@ -76,6 +99,15 @@ REQUIRED = (
     "hist_generic_code_rejections", "hist_generated_code_rejections",
     "hist_signed_rejections", "hist_unsigned_rejections", "hist_big_rejections", "hist_little_rejections",
     "hist_full_classes", "hist_lean_classes",
+    # dyn part (integer field produced at run time by the callable of a Ref, configuration selected per packet)
+    "dyn_classes", "dyn_fresh_int_classes", "dyn_chooses_classes", "dyn_table_classes", "dyn_mixed_classes",
+    "dyn_generated_code_classes", "dyn_generic_code_classes",
+    "dyn_unpack_checked", "dyn_pack_checked", "dyn_range_rejections", "dyn_nonint_rejections", "dyn_truncated_rejections",
+    "dyn_config_switches", "dyn_width_switches", "dyn_sign_switches", "dyn_order_switches",
+    "dyn_single_dimension_switches", "dyn_struct_loop_path_switches", "dyn_same_config_again",
+    "dyn_gc_collections", "dyn_held_packets", "dyn_held_packets_repacked", "dyn_held_packets_dropped",
+    "dyn_fresh_fields_built", "dyn_fresh_field_ids_recycled", "dyn_fresh_fields_alive_at_the_end",
+    "dyn_explicit_order_operations", "dyn_no_order_no_little_default_operations", "dyn_unfixed_order_operations",
 )
 RULE = {
     "quick": "widths 1..9 and 16 x signed/unsigned x 13 byte-order configurations (field endianness None under the 5 class "
@@ -110,12 +142,27 @@ RULE = {
              "ones (objects with __index__ / with only __eq__ and __hash__); every other class runs one of the 30 (scenario, "
              "kind) combinations, rotating. One evaluation = one (class, input) operation. distinct non-trivial = distinct (class, "
              "pattern group) pairs; a group (one lane x 256 values, the boundary set, ...) always contains patterns whose "
-             "big/little and signed/unsigned readings differ, so a wrong order, sign or width cannot pass a group.",
+             "big/little and signed/unsigned readings differ, so a wrong order, sign or width cannot pass a group. "
+             "DYN part (run first): 35 classes (7 variants x 5 option/class-default/tail combinations) whose integer field is "
+             "produced at run time by the callable of a Ref - a new Int per call with width (8 seeded widths per class, or the "
+             "value of a width field 1..33), signedness and byte order (big/little/network/local/none) selected by selector "
+             "fields of the packet; Ref(key.chooses({k: Int(...)})) with 16 literal configurations; Ref(lambda: TABLE[pkt.key]); "
+             "table or fresh Int depending on the key; two Ref fields sharing one table; a named function that keeps some of "
+             "its Ints alive and records their id(). Through each class one seeded history of 2000 operations: 50% unpack "
+             "(15% of the packets kept alive), 40% pack (constructor / attributes / one re-used packet object), 3% re-pack of "
+             "a kept packet, 2.5% rejection (out-of-range for the configuration selected for that packet, or a non-integer), "
+             "1% truncation, 1% dropping the kept packets, 4 gc.collect(); the selector of the next operation is random "
+             "(35%), differs in exactly one of width/sign/byte order (25%), goes back to the previous one (20%) or stays "
+             "(20%). Every operation is judged by the configuration the check decodes from the selector bytes of that packet; "
+             "an Int without byte order under a little-endian class default is accepted in either order (counted). distinct "
+             "non-trivial here = (class, block of 100 history steps).",
     "thorough": "as quick with widths 1..33, all 25 (field endianness x class default) combinations for n<=16 (the 13 of quick "
                 "above), all 9 plain layout x option-set classes plus opt (default and all-generic), unt and ref, and for n<=2 "
                 "ALL byte patterns (256 / 65536) on every class of every configuration (exhaustive sub-space: decode of every "
                 "pattern and encode of every representable value for n<=2). Lane/random groups on all classes for n in 3,4, on "
-                "one class per layout for n in 5..9 and 16, on one rotating class otherwise. Sharded by (width, configuration).",
+                "one class per layout for n in 5..9 and 16, on one rotating class otherwise. Sharded by (width, configuration). "
+                "DYN part: 210 classes (7 variants x 3 option sets x 5 class defaults x with/without a tail field), widths 1..33, "
+                "tables of 16-32 literals, one history of 3000 operations each; sharded by class.",
 }
 ASSUMPTIONS = [
     "the arithmetic oracle (sum b_k*256^k in the declared order, minus 2^(8n) when the top bit is set; inverse for encode) is "
@@ -139,6 +186,16 @@ ASSUMPTIONS = [
     "a field returned by a Ref selector is compiled by bisturi with an empty configuration: the class-level default is not "
     "expected to reach it, so the ref layout is only declared with an explicit endianness",
     "optional layout: any non-zero flag means present; None assigned to the optional field means absent (not a non-integer)",
+    "dyn part: an Int returned by the callable of a Ref must behave exactly as declared in that call (width, signedness, "
+    "byte order), whatever the same Ref returned for other packets before; the callable may build a new Int on every call "
+    "or return the same literal again (bisturi/field.py, Ref docstring and _unpack_using_callable)",
+    "dyn part: an Int returned by a Ref callable without a byte order of its own is big-endian when the class has no "
+    "default or a big-endian one (judged); under a little-endian class default the statement does not fix whether the "
+    "default reaches a field that is not part of the class body (the unchanged library compiles it with an empty "
+    "configuration, i.e. big): decode and encode are accepted in either order and counted (dyn_unfixed_order_*), but "
+    "re-packing a parsed packet must give back the parsed bytes in any case",
+    "dyn part: the history of a class runs on one class object in one process; the witness of a violation is the shortest "
+    "tail of the history that fails on a freshly defined class (reproduced_on_a_fresh_class), else the whole prefix",
     "exhaustive=true refers to the sub-space n=1 (quick) / n<=2 (thorough) of the tier's configurations only; "
     "wider widths are lane- and boundary-sampled",
 ]
@@ -472,6 +529,7 @@ class Ctx(object):
         self.run = run
         self.stop = False
         self.hist_seconds = 0.0
+        self.dyn_violations = 0
 
     def report(self, rec, op, what, got):
         run = self.run
@@ -862,6 +920,10 @@ def tag(v):
         return ["eq", str(v.v)]
     if isinstance(v, (list, tuple)):
         return ["L", [tag(e) for e in v]]
+    if isinstance(v, str):
+        return ["s", v]
+    if isinstance(v, bytes):
+        return ["y", v.hex()]
     raise TypeError(type(v))
 
 
@@ -887,6 +949,10 @@ def untag(t):
         return EqualOnly(int(t[1]))
     if k == "L":
         return [untag(e) for e in t[1]]
+    if k == "s":
+        return t[1]
+    if k == "y":
+        return bytes.fromhex(t[1])
     raise ValueError(k)
 
 
@@ -1327,6 +1393,584 @@ def classes_for_group(recs, gi, ci, nfan):
     return [recs[(gi + gi // m + ci) % m]]
 
 
+# ---------------------------------------------------------------------------------------------
+# DYN part: the integer field is produced at RUN TIME by the callable of a Ref
+# ---------------------------------------------------------------------------------------------
+DYN_VARIANTS = ("sel", "flds", "keep", "chooses", "table", "mixed", "table2")
+DYN_ORD = ("big", "little", "network", "local", None, "little", "big", None)
+DYN_STRUCT_W = (1, 2, 4, 8)
+DYN_MAX_VIOLATIONS = 3
+DYN_CHUNK = 100
+DYN_BITS = "Int(W_%(c)s[pkt.%(f)s & 7], signed=bool(pkt.%(f)s & 8), endianness=O_%(c)s[(pkt.%(f)s >> 4) & 7])"
+
+
+class DynSpec(object):
+    __slots__ = ("idx", "name", "variant", "opt", "cd", "tail", "src", "selectors", "targets", "domain", "cls", "module")
+
+    def config(self):
+        return {"variant": self.variant, "options": self.opt, "class_default": self.cd, "tail_field": self.tail,
+                "selector_fields": list(self.selectors), "run_time_selected_fields": list(self.targets),
+                "distinct_configurations": len(set(c for _sv, cfgs in self.domain for c in cfgs))}
+
+
+def dyn_plan(tier):
+    """[(variant, option set, class default, tail field)]"""
+    if tier == "thorough":
+        return [(v, o, cd, t) for v in DYN_VARIANTS for o, _d in OPTSETS for cd in CLASS_DEFAULTS for t in (False, True)]
+    combos = (("def", None, False), ("gen", None, True), ("nov", "little", True), ("def", "little", False), ("def", "big", True))
+    return [(v,) + c for v in DYN_VARIANTS for c in combos]
+
+
+def dyn_order(sp, cd):
+    """(byte order the statement fixes or the first reading, second reading or None).
+    A run-time selected Int without its own byte order: with no class default (or a big-endian one) every reading
+    gives big; with a little-endian class default the statement does not say whether the default reaches a field
+    that the class body does not contain -> both readings are accepted (and counted)."""
+    if sp is not None:
+        return resolve_order(sp, None), None
+    other = resolve_order(None, cd)
+    return "big", (other if other != "big" else None)
+
+
+def dyn_table_cfgs(rng, count, wpool, allow_none):
+    sps = ["big", "little", "network", "local"] + ([None] if allow_none else [])
+    out = []
+    while len(out) < count:
+        n, sg, sp = rng.choice(wpool), rng.random() < 0.5, rng.choice(sps)
+        # a configuration and its neighbours in exactly one dimension (sign, byte order, width)
+        for c in ((n, sg, sp), (n, not sg, sp), (n, sg, contrary(sp)), (rng.choice(wpool), sg, sp)):
+            if c not in out:
+                out.append(c)
+    out = out[:count]
+    rng.shuffle(out)
+    return out
+
+
+def dyn_make_spec(idx, variant, optname, cd, tail, tier, seed):
+    rng = rng_for(seed, "c05", "dyn", idx)
+    sp_ = DynSpec()
+    sp_.idx, sp_.variant, sp_.opt, sp_.cd, sp_.tail = idx, variant, optname, cd, tail
+    name = sp_.name = "D%03d_%s_%s_c%s%s" % (idx, variant, optname, _cap(cd), "_t" if tail else "")
+    conf = dict(dict(OPTSETS)[optname])
+    if cd is not None:
+        conf["endianness"] = cd
+    wpool = widths(tier)
+    loopw = [w for w in wpool if w not in DYN_STRUCT_W]
+    W = rng.sample(list(DYN_STRUCT_W), 3) + rng.sample(loopw, 3) + [rng.choice(wpool), rng.choice(wpool)]
+    rng.shuffle(W)
+    W = tuple(W)
+    r = rng.randrange(8)
+    O = DYN_ORD[r:] + DYN_ORD[:r]
+
+    def bits_cfg(s):
+        return (W[s & 7], bool(s & 8), O[(s >> 4) & 7])
+
+    def literal_table(cfgs_by_key):
+        return "{%s}" % ", ".join("%d: %s" % (k, int_src(*c)) for k, c in sorted(cfgs_by_key.items()))
+
+    pre = []
+    body = ["class %s(Packet):" % name, "    __bisturi__ = %r" % (conf,)]
+    sp_.targets = ("x",)
+    if variant in ("sel", "keep", "mixed"):
+        pre += ["W_%s = %r" % (name, W), "O_%s = %r" % (name, O)]
+    if variant == "sel":
+        sp_.selectors = ("s",)
+        body += ["    s = Int(1)",
+                 "    x = Ref(lambda pkt, **k: %s, default=0)" % (DYN_BITS % {"c": name, "f": "s"})]
+        sp_.domain = [((s,), (bits_cfg(s),)) for s in range(256)]
+    elif variant == "flds":
+        sp_.selectors = ("w", "g", "e")
+        body += ["    w = Int(1)", "    g = Int(1)", "    e = Int(1)",
+                 "    x = Ref(lambda pkt, **k: Int(pkt.w, signed=bool(pkt.g), endianness='little' if pkt.e else 'big'), default=0)"]
+        ws = sorted(set(list(wpool) + [rng.randrange(10, 34) for _ in range(3)]))
+        sp_.domain = [((w, g, e), ((w, bool(g), "little" if e else "big"),))
+                      for w in ws for g in (0, 1, 0x80) for e in (0, 1, 2, 0xff)]
+    elif variant == "keep":
+        # a named function builds the Int; it remembers the id() of every field it handed out (so that the check can
+        # tell that ids were recycled) and keeps the fields of selectors with bit 7 alive for a while
+        sp_.selectors = ("s",)
+        pre += ["KEEP_%s = []" % name, "IDS_%s = []" % name, "",
+                "def make_%s(pkt, **k):" % name,
+                "    f = %s" % (DYN_BITS % {"c": name, "f": "s"}),
+                "    IDS_%s.append(id(f))" % name,
+                "    if pkt.s & 0x80:",
+                "        KEEP_%s.append(f)" % name,
+                "        if len(KEEP_%s) > 48:" % name,
+                "            del KEEP_%s[:32]" % name,
+                "    return f", ""]
+        body += ["    s = Int(1)", "    x = Ref(make_%s, default=0)" % name]
+        sp_.domain = [((s,), (bits_cfg(s),)) for s in range(256)]
+    elif variant in ("chooses", "table", "mixed", "table2"):
+        count = {"chooses": 16, "table": 16, "mixed": 8, "table2": 10}[variant] * (2 if tier == "thorough" else 1)
+        cfgs = dyn_table_cfgs(rng, count, wpool, allow_none=(variant != "table2"))
+        keys = rng.sample(range(256), count)
+        table = dict(zip(keys, cfgs))
+        if variant == "chooses":
+            sp_.selectors = ("key",)
+            body += ["    key = Int(1)", "    x = Ref(key.chooses(%s), default=0)" % literal_table(table)]
+            sp_.domain = [((k,), (table[k],)) for k in sorted(table)]
+        else:
+            pre.append("T_%s = %s" % (name, literal_table(table)))
+        if variant == "table":
+            sp_.selectors = ("key",)
+            body += ["    key = Int(1)", "    x = Ref(lambda pkt, **k: T_%s[pkt.key], default=0)" % name]
+            sp_.domain = [((k,), (table[k],)) for k in sorted(table)]
+        elif variant == "mixed":
+            sp_.selectors = ("key",)
+            body += ["    key = Int(1)",
+                     "    x = Ref(lambda pkt, **k: T_%s[pkt.key] if pkt.key in T_%s else %s, default=0)"
+                     % (name, name, DYN_BITS % {"c": name, "f": "key"})]
+            sp_.domain = [((s,), (table.get(s, bits_cfg(s)),)) for s in range(256)]
+        elif variant == "table2":
+            # two Ref fields share the literals of one table (one through a lambda, one through chooses)
+            sp_.selectors = ("key", "key2")
+            sp_.targets = ("x", "y")
+            body += ["    key = Int(1)", "    key2 = Int(1)",
+                     "    x = Ref(lambda pkt, **k: T_%s[pkt.key], default=0)" % name,
+                     "    y = Ref(key2.chooses(T_%s), default=0)" % name]
+            sp_.domain = [((k, k2), (table[k], table[k2])) for k in sorted(table) for k2 in sorted(table)]
+    else:
+        raise ValueError(variant)
+    if tail:
+        body.append("    t = Int(2, endianness='big')")
+    sp_.src = "\n".join(pre + [""] + body) + "\n"
+    sp_.cls = sp_.module = None
+    return sp_
+
+
+def dyn_cfg_text(cfg):
+    return int_src(*cfg)
+
+
+def dyn_neighbour(spec, rng, cur):
+    """a selector whose configuration differs from the current one in exactly one of width / sign / byte order"""
+    dom = spec.domain
+    cfg = dom[cur][1][0]
+    o = dyn_order(cfg[2], None)[0]
+    j = cur
+    for _ in range(16):
+        j = rng.randrange(len(dom))
+        c = dom[j][1][0]
+        if (c[0] != cfg[0]) + (c[1] != cfg[1]) + (dyn_order(c[2], None)[0] != o) == 1:
+            return j
+    return j
+
+
+def dyn_history(spec, rng, nsteps, bcache, stats):
+    """One history (JSON-able steps) through the one class of `spec`: unpacks, packs, re-packs of packets kept alive,
+    rejections and truncations under configurations that change from operation to operation, garbage collections."""
+    dom = spec.domain
+    nsel = len(spec.selectors)
+    cd = spec.cd
+    steps = []
+    cur = prev = rng.randrange(len(dom))
+    last = {}            # target -> configuration of the previous operation through that Ref field
+    held = []            # (index of the unpack step, raw, alternative raw or None, configurations)
+    gc_at = set(rng.sample(range(4, nsteps), min(4, max(0, nsteps - 4))))
+
+    def pattern(n):
+        if n not in bcache:
+            bcache[n] = boundary_patterns(n)
+        if rng.random() < 0.5:
+            return rng.choice(bcache[n])
+        return bytes(rng.randrange(256) for _ in range(n))
+
+    def touch(cfgs, st):
+        prevtxt = {}
+        for t, c in zip(spec.targets, cfgs):
+            p = last.get(t)
+            if p is not None:
+                prevtxt[t] = dyn_cfg_text(p)
+                dw, ds = p[0] != c[0], p[1] != c[1]
+                do = dyn_order(p[2], None)[0] != dyn_order(c[2], None)[0]
+                if dw or ds or do:
+                    stats["dyn_config_switches"] += 1
+                    stats["dyn_width_switches"] += dw
+                    stats["dyn_sign_switches"] += ds
+                    stats["dyn_order_switches"] += do
+                    if dw + ds + do == 1:
+                        stats["dyn_single_dimension_switches"] += 1
+                    if (p[0] in DYN_STRUCT_W) != (c[0] in DYN_STRUCT_W):
+                        stats["dyn_struct_loop_path_switches"] += 1
+                else:
+                    stats["dyn_same_config_again"] += 1
+            last[t] = c
+        st["cfg"] = dict((t, dyn_cfg_text(c)) for t, c in zip(spec.targets, cfgs))
+        st["prev"] = prevtxt
+
+    def frame(i, selvals, cfgs):
+        """(raw, values, alt raw, alt values) of a complete packet with fresh patterns"""
+        values = dict(zip(spec.selectors, selvals))
+        raw = bytes(selvals)
+        araw, avalues = raw, {}
+        for t, (n, sg, sp) in zip(spec.targets, cfgs):
+            order, alt = dyn_order(sp, cd)
+            p = pattern(n)
+            v = decode(p, order, sg)
+            if encode(v, n, order, sg) != p:
+                raise AssertionError("oracle decode/encode are not inverse")
+            stats["oracle_selfchecks"] += 1
+            values[t] = v
+            raw += p
+            if alt is not None:
+                # the same bytes read in the other order / the same value written in the other order
+                avalues[t] = decode(p, alt, sg)
+                araw += encode(v, n, alt, sg)
+                stats["dyn_unfixed_order_operations"] += 1
+            else:
+                araw += p
+                if sp is not None:
+                    stats["dyn_explicit_order_operations"] += 1
+                else:
+                    stats["dyn_no_order_no_little_default_operations"] += 1
+        if spec.tail:
+            _pb, t0, t1 = multi_frame(i)
+            values["t"] = t0 * 256 + t1
+            raw += bytes((t0, t1))
+            araw += bytes((t0, t1))
+        return raw, values, (araw if avalues else None), avalues
+
+    i = 0
+    while i < nsteps:
+        i += 1
+        if i in gc_at:
+            steps.append({"op": "gc"})
+            continue
+        m = rng.random()
+        if m < 0.35:
+            nxt = rng.randrange(len(dom))
+        elif m < 0.60:
+            nxt = dyn_neighbour(spec, rng, cur)
+        elif m < 0.80:
+            nxt = prev
+        else:
+            nxt = cur
+        prev, cur = cur, nxt
+        selvals, cfgs = dom[cur]
+        r = rng.random()
+        if len(held) > 64 or 0.965 <= r < 0.975:
+            steps.append({"op": "drop"})
+            del held[:]
+            continue
+        if 0.90 <= r < 0.93 and held:
+            of, raw, araw, hcfgs = held[rng.randrange(len(held))]
+            # whichever order an unfixed field was read in, packing the parsed packet again must give the parsed bytes
+            # back ("encodes every value to exactly the n bytes that decode back to it"): no alternative here
+            st = {"op": "repack", "of": of, "expect_hex": raw.hex(), "unfixed": araw is not None}
+            touch(hcfgs, st)
+            steps.append(st)
+            continue
+        if 0.93 <= r < 0.955:
+            raw, values, _araw, _av = frame(i, selvals, cfgs)
+            ti = rng.randrange(len(spec.targets))
+            n, sg, _sp = cfgs[ti]
+            lo, hi = bounds(n, sg)
+            if rng.random() < 0.6:
+                cands = [lo - 1, hi + 1, POW[n], -POW[n], hi + POW[n], lo - POW[n], -1, POW[n] // 2, -(POW[n] // 2) - 1,
+                         POW[n] * 2 ** 67 + 5]
+                bad = rng.choice([c for c in cands if not (lo <= c <= hi)])
+                kind = "range"
+                why = "the out-of-range integer %d (the Int selected for this packet, %s, represents [%d, %d])" % (
+                    bad, dyn_cfg_text(cfgs[ti]), lo, hi)
+            else:
+                v = rng.choice([c for c in (0, 1, 7, 100, lo, hi, values[spec.targets[ti]]) if lo <= c <= hi])
+                cands = [1.5, "1", b"\x01", None]
+                cands += [o for o in (make_nonint(k, v) for k in ("float", "Fraction", "Decimal", "complex")) if o is not None]
+                bad = rng.choice(cands)
+                kind = "nonint"
+                why = "the non-integer %s (the Int selected for this packet is %s)" % (_describe(bad), dyn_cfg_text(cfgs[ti]))
+            values[spec.targets[ti]] = bad
+            st = {"op": "reject", "via": rng.choice(("ctor", "attr")), "kind": kind, "why": why,
+                  "assign": dict((k, tag(v)) for k, v in values.items())}
+            touch(cfgs, st)
+            steps.append(st)
+            continue
+        if 0.955 <= r < 0.965:
+            raw, _values, _araw, _av = frame(i, selvals, cfgs)
+            st = {"op": "trunc", "raw_hex": raw[:rng.randrange(nsel, len(raw))].hex()}
+            touch(cfgs, st)
+            steps.append(st)
+            continue
+        raw, values, araw, avalues = frame(i, selvals, cfgs)
+        if 0.50 <= r < 0.90:
+            st = {"op": "pack", "via": ("ctor", "attr", "reuse", "reuse")[rng.randrange(4)], "expect_hex": raw.hex(),
+                  "assign": dict((k, tag(v)) for k, v in values.items())}
+            if araw is not None:
+                st["alt_hex"] = araw.hex()
+        else:
+            st = {"op": "unpack", "raw_hex": raw.hex(), "expect": dict((k, tag(v)) for k, v in values.items())}
+            if avalues:
+                st["alt"] = dict((k, tag(v)) for k, v in avalues.items())
+            if rng.random() < 0.15:
+                st["hold"] = True
+                held.append((len(steps), raw, araw, cfgs))
+        touch(cfgs, st)
+        steps.append(st)
+    return steps
+
+
+def run_dyn_steps(cls, steps, stats):
+    """Execute a history of the run-time selected part on the real class.
+    -> (status, step index, what, got)   status in 'ok' | 'violation'; unjudged outcomes are counted in stats."""
+    import gc
+    from bisturi.packet import PacketError
+    held = {}
+    reuse = None
+    for idx, st in enumerate(steps):
+        op = st["op"]
+        if op == "gc":
+            gc.collect()
+            stats["dyn_gc_collections"] += 1
+            continue
+        if op == "drop":
+            stats["dyn_held_packets_dropped"] += len(held)
+            held.clear()
+            continue
+        if op == "unpack":
+            raw = bytes.fromhex(st["raw_hex"])
+            try:
+                pkt = cls.unpack(raw)
+            except PacketError as e:
+                return ("violation", idx, "unpack of a complete input raised PacketError",
+                        "PacketError: %s" % str(e.original_error_message)[:120])
+            except Exception as e:
+                return "violation", idx, "unpack of a complete input raised %s" % type(e).__name__, repr(e)[:120]
+            alt = st.get("alt")
+            for f, t in st["expect"].items():
+                try:
+                    got = getattr(pkt, f)
+                except Exception as e:
+                    got = "<%s>" % type(e).__name__
+                want = untag(t)
+                if alt is not None and f in alt:
+                    other = untag(alt[f])
+                    if want == other:
+                        stats["dyn_unfixed_order_ambiguous_pattern"] += 1
+                        if got == want:
+                            continue
+                    elif got == want:
+                        stats["dyn_unfixed_order_read_as_big"] += 1
+                        continue
+                    elif got == other:
+                        stats["dyn_unfixed_order_read_as_class_default"] += 1
+                        continue
+                    return ("violation", idx, "decoded value is the two's-complement value of the bytes in neither byte "
+                            "order (field %s, expected %r or %r)" % (f, want, other), repr(got))
+                if got != want:
+                    return ("violation", idx, "decoded value differs from the two's-complement value of the bytes under "
+                            "the configuration selected for this packet (field %s, expected %r)" % (f, want), repr(got))
+            if st.get("hold"):
+                held[idx] = pkt
+                stats["dyn_held_packets"] += 1
+            stats["dyn_unpack_checked"] += 1
+            continue
+        if op == "trunc":
+            raw = bytes.fromhex(st["raw_hex"])
+            try:
+                pkt = cls.unpack(raw)
+            except PacketError:
+                stats["dyn_truncated_rejections"] += 1
+                continue
+            except Exception as e:
+                stats["unjudged:dyn truncated input raised %s instead of PacketError" % type(e).__name__] += 1
+                continue
+            return ("violation", idx, "input with fewer bytes than the selected field width was decoded instead of "
+                    "raising PacketError", repr(dict((f, getattr(pkt, f, None)) for f in ("x", "y", "t"))))
+        if op == "repack":
+            pkt = held.get(st["of"])
+            if pkt is None:
+                stats["dyn_repack_target_missing"] += 1
+                continue
+        elif op in ("pack", "reject"):
+            try:
+                assign = dict((k, untag(v)) for k, v in st["assign"].items())
+                via = st.get("via")
+                if via == "ctor":
+                    pkt = cls(**assign)
+                else:
+                    if via == "reuse":
+                        if reuse is None:
+                            reuse = cls()
+                        pkt = reuse
+                    else:
+                        pkt = cls()
+                    for k, v in assign.items():
+                        setattr(pkt, k, v)
+            except Exception as e:
+                stats["unjudged:dyn could not build the packet: %s" % type(e).__name__] += 1
+                continue
+        else:
+            raise ValueError(op)
+        try:
+            out = pkt.pack()
+        except PacketError as e:
+            if op == "reject":
+                stats["dyn_%s_rejections" % st["kind"]] += 1
+                continue
+            return ("violation", idx, "pack of a value representable under the configuration selected for this packet "
+                    "raised PacketError", "PacketError: %s" % str(e.original_error_message)[:120])
+        except Exception as e:
+            if op == "reject":
+                return ("violation", idx, "pack of %s raised %s rather than PacketError" % (st["why"], type(e).__name__),
+                        repr(e)[:120])
+            return ("violation", idx, "pack of a value representable under the configuration selected for this packet "
+                    "raised %s" % type(e).__name__, repr(e)[:120])
+        if op == "reject":
+            return ("violation", idx, "pack of %s returned bytes (wrapped/truncated/padded) instead of raising PacketError"
+                    % st["why"], out.hex())
+        got = out.hex()
+        if got != st["expect_hex"]:
+            if "alt_hex" not in st:
+                if op == "repack":
+                    return ("violation", idx, "packing the parsed packet again does not give back the bytes it was decoded "
+                            "from (expected %s)" % st["expect_hex"], got)
+                return ("violation", idx, "packed bytes differ from the two's-complement encoding under the configuration "
+                        "selected for this packet (expected %s)" % st["expect_hex"], got)
+            if got != st["alt_hex"]:
+                return ("violation", idx, "packed bytes are the two's-complement encoding in neither byte order "
+                        "(expected %s or %s)" % (st["expect_hex"], st["alt_hex"]), got)
+            stats["dyn_unfixed_order_written_as_class_default"] += 1
+        elif "alt_hex" in st:
+            stats["dyn_unfixed_order_written_as_big" if st["alt_hex"] != got else "dyn_unfixed_order_ambiguous_pattern"] += 1
+        if op == "repack":
+            stats["dyn_held_packets_repacked"] += 1
+            if st.get("unfixed"):
+                stats["dyn_unfixed_order_repacked_to_the_parsed_bytes"] += 1
+        stats["dyn_pack_checked"] += 1
+    return "ok", None, None, None
+
+
+def dyn_window(steps, start, end):
+    """steps[start..end] re-based so that they run on their own; None when a re-pack refers to a packet parsed earlier"""
+    out = []
+    for st in steps[start:end + 1]:
+        if st["op"] == "repack":
+            if st["of"] < start:
+                return None
+            st = dict(st, of=st["of"] - start)
+        out.append(st)
+    return out
+
+
+def dyn_report(ctx, spec, steps, idx, what, got):
+    """Record a violation of the run-time selected part; the witness is the shortest tail of the history that shows the
+    same on a freshly defined class (else the whole history up to the failing step)."""
+    import collections
+    run = ctx.run
+    window, reproduced = None, False
+    for size in (1, 2, 3, 5, 9, 17, 65, idx + 1):
+        size = min(size, idx + 1)
+        w = dyn_window(steps, idx + 1 - size, idx)
+        if w is not None:
+            try:
+                d = common.scratch_dir("bvf_c05d_")
+                try:
+                    module, _ = render.load_source(HEADER + spec.src, d)
+                    try:
+                        st2, i2, what2, got2 = run_dyn_steps(getattr(module, spec.name), w, collections.Counter())
+                    finally:
+                        sys.modules.pop(module.__name__, None)
+                finally:
+                    common.drop_scratch(d)
+            except Exception:
+                break
+            if st2 == "violation" and i2 == len(w) - 1:
+                window, reproduced, what, got = w, True, what2, got2
+                break
+        if size == idx + 1:
+            break
+    if window is None:
+        window = steps[:idx + 1]
+    st = window[-1]
+    chosen = ", ".join("%s = %s" % (t, c) for t, c in sorted(st.get("cfg", {}).items()))
+    before = ", ".join("%s = %s" % (t, c) for t, c in sorted(st.get("prev", {}).items())) or "nothing"
+    witness = {"class_name": spec.name, "class_src": HEADER + spec.src, "config": spec.config(),
+               "dyn": {"variant": spec.variant, "steps": window, "failed_step": len(window) - 1,
+                       "step_in_the_run": idx, "reproduced_on_a_fresh_class": reproduced},
+               "got": got}
+    run.violation("%s [field produced at run time by the callable of a Ref: %s selected for this packet; the previous "
+                  "operation through the same Ref selected %s; %s step %d of a history of %d operations through class %s, "
+                  "variant %s, options %s, class default %r]" % (
+                      what, chosen, before, st["op"], idx, len(steps), spec.name, spec.variant, spec.opt, spec.cd),
+                  witness, None)
+    ctx.dyn_violations += 1
+    if run.counters["violations"] >= MAX_VIOLATIONS:
+        ctx.stop = True
+
+
+def dyn_part(ctx, scratch):
+    """Histories through classes whose integer field is selected at run time (see the module docstring)."""
+    import collections
+    run = ctx.run
+    tier = run.tier
+    shard, nshards = run.shard
+    nsteps = 3000 if tier == "thorough" else 2000
+    t_start = time.time()
+    bcache = {}
+    sampled = 0
+    for idx, (variant, optname, cd, tail) in enumerate(dyn_plan(tier)):
+        if idx % nshards != shard:
+            continue
+        if ctx.stop or ctx.dyn_violations >= DYN_MAX_VIOLATIONS:
+            break
+        spec = dyn_make_spec(idx, variant, optname, cd, tail, tier, run.seed)
+        try:
+            module, _path = render.load_source(HEADER + spec.src, scratch)
+        except Exception as e:
+            run.inconclusive_because("class-definition-failed:%s:%s:%s" % (spec.name, type(e).__name__, str(e)[:120]))
+            continue
+        try:
+            spec.module, spec.cls = module, getattr(module, spec.name)
+            generated = "unpack_impl" in spec.cls.__dict__ and "pack_impl" in spec.cls.__dict__
+            if (optname == "gen") == generated:
+                run.inconclusive_because("dyn class %s: generated code %s but options %s" % (spec.name, generated, optname))
+            gstats = collections.Counter()
+            try:
+                steps = dyn_history(spec, rng_for(run.seed, "c05", "dynhist", idx), nsteps, bcache, gstats)
+            except AssertionError as e:
+                run.inconclusive_because("harness-disagreement: %s" % e)
+                continue
+            xstats = collections.Counter()
+            status, fidx, what, got = run_dyn_steps(spec.cls, steps, xstats)
+            if status != "ok":
+                run.case(key=None, n=fidx + 1)
+                dyn_report(ctx, spec, steps, fidx, what, got)
+                continue
+            for st_ in (gstats, xstats):
+                for k, v in st_.items():
+                    if v:
+                        run.count(k, v)
+            nops = sum(1 for st in steps if st["op"] not in ("gc", "drop"))
+            nchunks = max(1, len(steps) // DYN_CHUNK)
+            for c in range(nchunks):
+                run.case(key="%s|dyn-history:%d" % (spec.name, c), n=nops // nchunks + (1 if c < nops % nchunks else 0))
+            run.count("dyn_classes")
+            run.count("dyn_histories")
+            run.count({"sel": "dyn_fresh_int_classes", "flds": "dyn_fresh_int_classes", "keep": "dyn_fresh_int_classes",
+                       "chooses": "dyn_chooses_classes", "table": "dyn_table_classes", "table2": "dyn_table_classes",
+                       "mixed": "dyn_mixed_classes"}[variant])
+            run.count("dyn_generated_code_classes" if generated else "dyn_generic_code_classes")
+            if cd is not None:
+                run.count("dyn_classes_with_a_class_default")
+            run.cover("dyn_variant_x_options_x_class_default", "%s/%s/%s" % (variant, optname, cd))
+            for _sv, cfgs in spec.domain:
+                for c in cfgs:
+                    run.cover("dyn_widths", c[0])
+                    run.cover("dyn_spellings", repr(c[2]))
+            if variant == "keep":
+                ids = getattr(module, "IDS_%s" % spec.name)
+                run.count("dyn_fresh_fields_built", len(ids))
+                run.count("dyn_fresh_field_ids_recycled", len(ids) - len(set(ids)))
+                run.count("dyn_fresh_fields_alive_at_the_end", len(getattr(module, "KEEP_%s" % spec.name)))
+            if sampled < 2 and variant in ("sel", "chooses"):
+                run.sample({"class_src": spec.src, "history_steps": [s for s in steps if s["op"] in ("unpack", "pack")][:3],
+                            "history_length": len(steps)}, cap=8)
+                sampled += 1
+        finally:
+            sys.modules.pop(module.__name__, None)
+    run.extra["dyn_part_seconds"] = round(time.time() - t_start, 1)
+
+
 def run(run):
     from bisturi.packet import PacketError  # noqa: F401  (fail early when the import is broken)
     shard, nshards = run.shard
@@ -1342,6 +1986,8 @@ def run(run):
     unit = 0
     sampled = 0
     try:
+        # first (small heap, the garbage collections are cheap): the fields selected at run time
+        dyn_part(ctx, scratch)
         for n in widths(tier):
             configs = [(signed, sp, cd) for signed in (False, True) for (sp, cd) in order_configs(tier, n)]
             mine = []
@@ -1488,7 +2134,12 @@ def replay(run, rec):
     try:
         module, _ = render.load_source(w["class_src"], scratch)
         cls = getattr(module, w["class_name"])
-        if "history" in w:
+        if "dyn" in w:
+            import collections
+            status, idx, what, got = run_dyn_steps(cls, w["dyn"]["steps"], collections.Counter())
+            if status == "violation":
+                what = "%s [run-time selected field, step %d of the recorded history]" % (what, idx)
+        elif "history" in w:
             # the whole recorded sequence, on the freshly defined class (steps the run had already done on the class
             # through its main part - replay_only - are executed too)
             status, idx, what, got, _obs = run_steps(cls, w["history"]["steps"], replaying=True)
